@@ -45,7 +45,8 @@ TEXT = {
             "conda_content_trust.cli) x file pairs drawn from simulated histories (valid successors, key_mgr under root, every "
             "attack-catalogue document, malformed / empty / missing / directory / BOM files) x seeded environments; exit status and "
             "success line compared with the in-process library verdict on the same files; sign-artifacts with good and unusable keys.",
-            "An unwritable stdout is out of scope; gpg-sign needs securesystemslib (absent) and is exercised in-process in C10/C18.",
+            "An unwritable stdout is out of scope. gpg-sign / gpg-key-lookup run as real processes against a stand-in securesystemslib package "
+            "(harness OpenPGP packet parser + the real gpg binary) put on PYTHONPATH, and without it (must exit non-zero, file unchanged).",
             "sec. 7 C17"),
     "C18": ("fault_enumeration", "Per scenario, exhaustive enumeration of fault points before the output phase: an exception at every line "
             "event executed inside library frames, an I/O error or short read at every file-system operation, a failure of every "
